@@ -284,6 +284,7 @@ class Crate:
         for b in self.bodies.values():
             if "body" in b:
                 lower_while_next(b["body"])
+                lower_match_stmt(b["body"])
                 merge_guarded_arms(b["body"])
                 if b.get("dk") in ("Fn", "AssocFn"):
                     lower_cursor_loop(b)
@@ -817,6 +818,35 @@ def merge_guarded_arms(root):
             merged["body"] = body
             arms[i:i + 2] = [merged]
             # stay at i: a further arm on the same variant may follow
+
+
+def lower_match_stmt(root):
+    """A match in statement position whose only effect is one diverging arm -  `match S { P if G => return .., _ => {} }`  - is rewritten in place into
+    `if let P = S { if G { return .. } }`, the guard-clause shape the block normaliser (and every rule that looks for dominating conditions) knows."""
+    def unit(e):
+        e = strip(e)
+        if e.get("k") == "Tup" and not e.get("es"):
+            return True
+        return e.get("k") == "Block" and not e["b"].get("stmts") and ("expr" not in e["b"] or unit(e["b"]["expr"]))
+    for blk in [n for n in walk(root) if n.get("k") is None and "stmts" in n]:
+        for st in blk["stmts"]:
+            if st.get("k") not in ("SSemi", "SExpr"):
+                continue
+            holder = st
+            m = st["e"]
+            while isinstance(m, dict) and m.get("k") in ("DropTemps", "Use"):
+                holder, m = m, m["e"]
+            if not (isinstance(m, dict) and m.get("k") == "Match" and m.get("src") == "Normal" and len(m["arms"]) == 2):
+                continue
+            a, b = m["arms"]
+            if "guard" in b or b["pat"].get("k") != "Wild" or not unit(b["body"]) or strip(a["body"]).get("ty") != "!":
+                continue
+            inner = a["body"]
+            if "guard" in a:
+                inner = {"k": "If", "cond": a["guard"], "then": a["body"], "ty": "()", "sp": a["body"].get("sp", "")}
+            new = {"k": "If", "cond": {"k": "Let", "pat": a["pat"], "init": m["scrut"], "ty": "bool", "sp": m.get("sp", "")},
+                   "then": {"k": "Block", "b": {"stmts": [{"k": "SSemi", "e": inner}]}, "ty": "()", "sp": m.get("sp", "")}, "ty": "()", "sp": m.get("sp", "")}
+            holder["e"] = new
 
 
 def _has_loop_control(n):
